@@ -166,3 +166,7 @@ EB_ALIAS = {'name': 'alias', 'crate': 'gneiss-mqtt', 'module_dir': 'gneiss_mqtt'
 EB_WS = {'name': 'ws', 'crate': 'gneiss-mqtt', 'module_dir': 'gneiss_mqtt', 'features': ['threaded-websockets'], 'raw_filters': ['verif_bounded_ws'], 'tests': ['ws_wrapper_read_concatenates_payloads'], 'timeout': 3000}
 PROPS['C17']['eb'] = [EB_ALIAS]
 PROPS['C13']['eb'] = [EB_WS]
+
+EB_FIXED = _findings_group(['engine_fixed_findings_stay_fixed'])
+EB_FIXED = dict(EB_FIXED, name='fixed-findings', filters=['findings::engine_fixed'])
+PROPS['C11']['eb'].append(EB_FIXED)
